@@ -392,6 +392,19 @@ def chunk_work(job):
             if prop == "C13":
                 fs = check_c13(t, seqs)
                 out["evaluations"] += len(seqs)
+                if not fs and out["distinct"] % 7 == 0:
+                    # the same tree over items that print alike but are different: 1, "1" and "x"
+                    m = {"a": 1, "b": "1", "c": "x"}
+
+                    def remap(x):
+                        if x[0] == "atom":
+                            return ("atom", m[x[1]])
+                        if x[0] == "seq":
+                            return ("seq", [remap(y) for y in x[1]])
+                        return (x[0],) + tuple(remap(y) for y in x[1:])
+                    short = [tuple(m[c] for c in q) for q in seqs if len(q) <= 4]
+                    fs = check_c13(remap(t), short)
+                    out["evaluations"] += len(short)
             else:
                 if nullable(t):
                     continue
